@@ -181,12 +181,29 @@ def strip_comments(text):
     return "".join(out)
 
 
-def grep_gate():
-    """Forbidden vernacular anywhere in the development (comments stripped)."""
-    bad = []
-    for rel in coq_sources():
-        if rel.startswith("Gen/") and False:
+def dep_closure(roots):
+    """Files of the development the given .v files depend on (through `From IV Require`), incl. themselves."""
+    seen, todo = set(), list(roots)
+    while todo:
+        rel = todo.pop()
+        if rel in seen or not os.path.exists(os.path.join(COQ, rel)):
             continue
+        seen.add(rel)
+        txt = strip_comments(open(os.path.join(COQ, rel), errors="replace").read())
+        for m in re.finditer(r"From\s+%s\s+Require\s+(?:Import\s+|Export\s+)?(.*?)\.(?:\s|$)" % LOGICAL, txt, re.S):
+            for mod in m.group(1).split():
+                todo.append(mod.replace(".", "/") + ".v")
+        for m in re.finditer(r"Require\s+(?:Import\s+|Export\s+)?(.*?)\.(?:\s|$)", txt, re.S):
+            for mod in m.group(1).split():
+                if mod.startswith(LOGICAL + "."):
+                    todo.append(mod[len(LOGICAL) + 1:].replace(".", "/") + ".v")
+    return sorted(seen)
+
+
+def grep_gate(files=None):
+    """Forbidden vernacular (comments stripped) in the given files (default: the whole development)."""
+    bad = []
+    for rel in (files if files is not None else coq_sources()):
         txt = strip_comments(open(os.path.join(COQ, rel), errors="replace").read())
         for m in FORBIDDEN.finditer(txt):
             bad.append("%s: %s" % (rel, m.group(0)))
@@ -252,12 +269,14 @@ def coq_check(pid, extra_targets=()):
     with Lock("coq"):
         with ThreadPoolExecutor(max_workers=8) as ex:
             results = list(ex.map(check_one_prop, props))
-    gate = grep_gate()
+    closure = dep_closure(list(props) + [x[:-1] for x in extra_targets])
+    gate = grep_gate(closure)
+    gate_elsewhere = [h for h in grep_gate() if h not in gate]
     extra_ok = all(os.path.exists(os.path.join(COQ, x)) and
                    os.path.getmtime(os.path.join(COQ, x)) >= os.path.getmtime(os.path.join(COQ, x[:-1]))
                    for x in extra_targets)
     return {
-        "make_rc": rc, "make_tail": o[-4000:], "theorems": results, "gate": gate,
+        "make_rc": rc, "make_tail": o[-4000:], "theorems": results, "gate": gate, "gate_elsewhere": gate_elsewhere, "closure": closure,
         "extract_ok": extra_ok, "wall_s": round(time.time() - t, 1),
     }
 
@@ -659,6 +678,7 @@ def write_evidence(run, coq, pins_info, go_info):
         "pins": pins_info,
         "go": go_info,
         "coq_wall_s": coq["wall_s"] if coq else None,
+        "coq_files_depended_on": coq["closure"] if coq else [],
         "notes": run.notes,
         "statements_not_proved": getattr(mod, "NOT_PROVED", []),
     }
@@ -717,7 +737,9 @@ def main(argv=None):
             if not t["ok"]:
                 run.notes.append("theorem %s no longer checks: %s" % (t["name"], t["out"][-400:]))
         if coq["gate"]:
-            run.violation("build", {"what": "forbidden vernacular in the development", "hits": coq["gate"]}, False)
+            run.violation("build", {"what": "forbidden vernacular in the files this property depends on", "hits": coq["gate"]}, False)
+        if coq["gate_elsewhere"]:
+            run.notes.append("forbidden vernacular in files this property does not depend on: %s" % coq["gate_elsewhere"])
         if extra and not coq["extract_ok"]:
             run.violation("build", {"what": "model extraction no longer builds", "make": coq["make_tail"]}, False)
         if tier == "thorough" and not replay and all(t["ok"] for t in coq["theorems"]):
